@@ -309,6 +309,10 @@ class Printer:
             if self.decl_ref.get(rd['id']):
                 self.fire('expr:deref-reference')
                 return '(*%s)' % nm
+            if rd['kind'] == 'VarDecl' and rd['id'] not in self.local_ids and not self.fragment:
+                if nm not in self.unit.get('globals', []):
+                    self.brk('reference to non-local variable %s (not listed under globals:)' % nm, n)
+                self.fire('expr:global-constant')
             self.fire('expr:decl-ref')
             return nm
         if k == 'MemberExpr':
@@ -316,7 +320,18 @@ class Printer:
         if k == 'ImplicitCastExpr':
             return self.cast(n, implicit=True)
         if k in ('CXXStaticCastExpr', 'CStyleCastExpr', 'CXXFunctionalCastExpr'):
+            if n.get('castKind') in ('BaseToDerived', 'DerivedToBase', 'UncheckedDerivedToBase') and self.ctype_of(n) in self.unit.get('token_types', []):
+                self.fire('cast:static-downcast-on-token')
+                return self.e(I[-1])
             return self.cast(n, implicit=False)
+        if k == 'CXXDynamicCastExpr':
+            # dynamic_cast<T*>(block): the result is the block itself or null, decided by the block's dynamic type -- a stub
+            fn = self.callmap.get('dynamic_cast')
+            if not fn:
+                self.brk('dynamic_cast without a dynamic_cast entry in the callmap', n)
+            self.fire('cast:dynamic-cast-stub')
+            self.called[fn] += 1
+            return '%s(%s)' % (fn, self.e(I[-1]))
         if k == 'BinaryOperator':
             op = n['opcode']
             self.fire('expr:binop')
@@ -374,6 +389,12 @@ class Printer:
         ev = self.unit.get('enums', {})
         if rd['name'] in ev:
             return str(ev[rd['name']])
+        lk = self.unit.get('_enum_lookup')
+        if lk:
+            v = lk(n.get('type', {}).get('qualType', ''), rd['name'])
+            if v is not None:
+                self.fire('expr:enum-value-from-ast')
+                return str(v)
         self.brk('enum constant %s has no extracted value' % rd['name'], n)
 
     def member(self, n):
@@ -424,6 +445,13 @@ class Printer:
 
     # -- vectors ---------------------------------------------------------------
     def vec_assign(self, lhs, rhs):
+        r0 = self.skip(rhs)
+        while r0.get('kind') in ('ImplicitCastExpr',) and r0.get('inner'):
+            r0 = r0['inner'][0]
+        if r0.get('kind') == 'CallExpr' and self.callee_decl(r0['inner'][0]).get('referencedDecl', {}).get('name') == 'move':
+            # move assignment: the buffer changes hands (the moved-from vector is not used again: checked by the C compiler? no -- assumption)
+            self.fire('vec:move-assign')
+            return '(%s = %s)' % (self.e(lhs), self.e(r0['inner'][1]))
         self.fire('vec:assign')
         ct = self.ctype_of(lhs)
         fn = '%s_assign' % ct
@@ -524,6 +552,10 @@ class Printer:
             self.brk('vector member not in table: %s/%d' % (m, len(args)), n)
         # call on this / another object -> C function  Class__method(&obj, args)
         cls = self.class_of(o, me)
+        if ('%s::%s' % (cls, m)) in self.unit.get('identity_methods', []) and not args:
+            # accessor returning the object's own value (unique_ptr::get on an opaque block token, NiString::get on a string token)
+            self.fire('call:identity-accessor')
+            return self.e(o)
         fn = self.callmap.get('%s::%s' % (cls, m), '%s__%s' % (mangle(cls), m))
         self.called[fn] += 1
         self.fire('call:method')
@@ -547,7 +579,7 @@ class Printer:
         t = Types.strip(d or q)
         t = t.rstrip('*& ').strip()
         t = re.sub(r'<.*>$', '', t)
-        return t.replace('nifly::', '')
+        return t.replace('nifly::', '').replace('std::', '')
 
     def arg(self, a):
         """argument of a call to a nifly function: by-reference parameters receive addresses"""
@@ -560,7 +592,12 @@ class Printer:
     def is_record_expr(self, n):
         q, d = self.qt(n)
         t = Types.strip(d or q)
-        return t in self.T.records or ('nifly::' + t) in self.T.records or t in self.unit.get('byref_types', [])
+        if t in self.T.records or ('nifly::' + t) in self.T.records:
+            return True
+        try:
+            return self.T.c(q, d) in self.unit.get('byref_types', [])
+        except ExtractionBreak:
+            return False
 
     def iter_index(self, a, vec):
         """v.begin() + i  ->  i   (only that shape)"""
@@ -593,6 +630,20 @@ class Printer:
             self.fire('op:record-assign')
             return '(%s = %s)' % (self.e(I[1]), self.e(self.skip(I[2])))
         opmap = self.unit.get('opmap', {})
+        if opn in opmap and opmap[opn] in ('==', '!=', '<', '>', '<=', '>=') and len(I) == 3:
+            for a in I[1:]:
+                if self.ctype_of(self.skip(a)) not in self.unit.get('token_types', []):
+                    self.brk('%s on a non-token type' % opn, n)
+            # comparison of opaque value tokens (strings): decidable equality on the token
+            self.fire('op:token-compare')
+            return '(%s %s %s)' % (self.e(self.skip(I[1])), opmap[opn], self.e(self.skip(I[2])))
+        if opn == 'operator*' and len(I) == 2:
+            # unary * on a (smart) pointer rendered as a C pointer
+            self.fire('op:deref')
+            return '(*%s)' % self.e(I[1])
+        if opn == 'operator->' and len(I) == 2:
+            self.fire('op:arrow')
+            return self.e(I[1])
         if opn in opmap:
             self.fire('op:mapped')
             fn = opmap[opn]
@@ -642,6 +693,24 @@ class Printer:
             if t0 == t1:
                 self.fire('ctor:copy-or-move')
                 return self.e(I[0])
+        if len(I) == 1 and not self.is_vec_expr(n):
+            try:
+                if self.T.c(q, d) == self.ctype_of(I[0]) and self.T.c(q, d) in self.unit.get('token_types', []):
+                    self.fire('ctor:token-identity')
+                    return self.e(self.skip(I[0]))
+            except ExtractionBreak:
+                pass
+        if len(I) == 0 and not self.is_vec_expr(n):
+            try:
+                if self.T.c(q, d) in self.unit.get('token_types', []):
+                    # default-constructed string / empty smart pointer: the distinguished token 0
+                    self.fire('ctor:default-token')
+                    return '((%s)0)' % self.T.c(q, d)
+                if self.T.c(q, d) in self.unit.get('zero_init_types', []):
+                    self.fire('ctor:default-zero')
+                    return '{0}'
+            except ExtractionBreak:
+                pass
         if len(I) == 1 and self.is_vec_expr(n) and self.is_vec_expr(I[0]):
             self.brk('by-value vector copy construction', n)
         cm = self.unit.get('ctors', {})
@@ -832,6 +901,27 @@ class Printer:
             self.brk('range-for shape', n)
         rexpr = self.skip(rng['inner'][0])
         if not self.is_vec_expr(rexpr):
+            try:
+                rct = self.ctype_of(rexpr)
+            except ExtractionBreak:
+                rct = None
+            if rct in self.unit.get('cellset_types', []):
+                # std::set<NiRef*> / std::vector<NiStringRef*> filled by the enumerators: one contiguous range of cells (DESIGN.md 3.2)
+                self.fire('stmt:range-for-cellset')
+                no = self.loop_tag()
+                R = self.e(rexpr)
+                ix = '__i%d' % no
+                q = lv['type']['qualType']
+                ct = self.T.c(q, lv['type'].get('desugaredQualType'))
+                self.local_ids.add(lv['id'])
+                self.decl_ref[lv['id']] = False
+                first = t + '\t%s %s = &%s.cells[%s];\n' % (ct, lv['name'], R, ix)
+                s = t + '/*@BEFORE-LOOP %d@*/\n' % no
+                s += t + 'for (size_t %s = %s.lo; %s < %s.hi; ++%s)\n' % (ix, R, ix, R, ix)
+                s += t + '/*@LOOP %d@*/\n' % no
+                s += self.loop_body(body, ind, no, first)
+                s += t + '/*@AFTER-LOOP %d@*/\n' % no
+                return s
             self.brk('range-for over a non-vector', n)
         # the body must not resize the range
         self.fire('stmt:range-for')
@@ -909,7 +999,9 @@ def render_function(unit, docs, types):
     p = Printer(types, unit)
     cname = unit['name']
     params = []
-    is_method = fn['kind'] in ('CXXMethodDecl',) and not fn.get('storageClass') == 'static'
+    is_method = fn['kind'] in ('CXXMethodDecl',) and not fn.get('storageClass') == 'static' and not unit.get('static')
+    if unit.get('static') and any(x.get('kind') == 'CXXThisExpr' for x in walk(fn)):
+        raise ExtractionBreak('unit declared static but the body uses this')
     selfname = unit.get('self')
     if is_method:
         if not selfname:
@@ -922,7 +1014,12 @@ def render_function(unit, docs, types):
             ct = types.c(q, d)
             isvec = types.is_vec(q, d)
             p.local_ids.add(c['id'])
-            if types.is_ref(q):
+            is_rec = Types.strip(d or q).rstrip('& ').strip() in types.records or ('nifly::' + Types.strip(d or q).rstrip('& ').strip()) in types.records
+            if types.is_ref(q) and q.strip().startswith('const ') and not isvec and not is_rec and ct not in unit.get('byref_types', []):
+                # const reference to a scalar / opaque token: passed by value (no aliasing can be observed through a const&)
+                p.fire('param:const-ref-scalar-by-value')
+                params.append('%s %s' % (ct, c['name']))
+            elif types.is_ref(q):
                 p.decl_ref[c['id']] = True
                 params.append('%s *%s' % (ct, c['name']))
             elif isvec:
